@@ -27,15 +27,15 @@ func runC07(c *Ctx) {
 		c.undecided("R1", "evalStatement", "", "anchor not found")
 		return
 	}
-	F := FactsOf(es)
 	brk, cont := ek.Sentinel("errBreak"), ek.Sentinel("errContinue")
 	gBreak := ek.SentinelGlobal("errBreak")
 	c.note("R1 loop-consumption: for the body evaluation call of while / for / for-in (array, object, string): swallowed kinds = {errBreak, errContinue} exactly (swallow analysis), every other kind is returned unchanged; on the edge where the body's error == errBreak the body call is not reachable again; on the complementary non-returning edge it is.")
 	nLoops := 0
 	for _, s := range ErrSites(p) {
-		if s.Fn != es || s.Swallow == nil {
+		if !p.inClusterOf(es, s.Fn) || s.Swallow == nil {
 			continue
 		}
+		F := FactsOf(s.Fn)
 		if !(strings.HasSuffix(s.ArgDesc, ".Body") && (strings.HasPrefix(s.ArgDesc, "StatementWhile") || strings.HasPrefix(s.ArgDesc, "StatementFor"))) {
 			continue
 		}
@@ -49,7 +49,7 @@ func runC07(c *Ctx) {
 		cv := s.Call.(*ssa.Call)
 		breakStays := false
 		breakSeen := false
-		for _, b := range es.Blocks {
+		for _, b := range s.Fn.Blocks {
 			if F.At(b).EqGlobal(cv, gBreak) {
 				breakSeen = true
 				if reachableFrom([]*ssa.BasicBlock{b}, nil)[cv.Block()] {
@@ -58,7 +58,7 @@ func runC07(c *Ctx) {
 			}
 		}
 		// the break edge may lead directly to the shared exit block: test the edge targets
-		for _, b := range es.Blocks {
+		for _, b := range s.Fn.Blocks {
 			for _, succ := range b.Succs {
 				if F.OnEdge(b, succ).EqGlobal(cv, gBreak) && !F.At(b).EqGlobal(cv, gBreak) {
 					breakSeen = true
